@@ -807,33 +807,64 @@ func vfc16CheckWithdraw(c *vfCase, pfx []vfBGPPrefix, ip16 bool) {
 	}
 	c.Eval()
 	c.Count("withdraws-sent")
-	d := map[string]any{"input": in, "wire_hex": vfHex(buf.Bytes())}
+	wireHex := vfHex(buf.Bytes())
+	if len(wireHex) > 1200 {
+		wireHex = wireHex[:1200] + fmt.Sprintf("... (%d octets)", buf.Len())
+	}
+	if len(want) > 80 {
+		in["prefixes"] = fmt.Sprintf("%d prefixes, first: %v", len(want), want[:4])
+	}
+	d := map[string]any{"input": in, "wire_hex": wireHex}
+	large := len(pfx) > 64 // beyond the sizes of the statement's main quantifier: an error without output is acceptable
 	if err != nil {
+		if large && buf.Len() == 0 {
+			c.Count("withdraw-refused:too-many-prefixes")
+			return
+		}
 		c.Violation("withdraw:unexpected-error", fmt.Sprintf("sendWithdraw of %d prefixes failed: %v", len(pfx), err), d)
 		return
 	}
-	m := vfc16DecodeSingle(c, "withdraw", buf.Bytes(), false, d)
-	if m == nil {
+	// one message, or several (a speaker may split a long list): each a well-formed UPDATE carrying only withdrawn routes
+	msgs, serr := vfBGPSplit(buf.Bytes())
+	if serr != nil {
+		if vfBGPErrCode(serr) == "header:length-range" && len(buf.Bytes()) >= 18 && vfBE16(buf.Bytes()[16:18]) > vfBGPMaxLen {
+			c.Violation("withdraw:message-longer-than-4096-octets", fmt.Sprintf("sendWithdraw of %d prefixes wrote one message of %d octets (maximum BGP message size is 4096)", len(pfx), vfBE16(buf.Bytes()[16:18])), d)
+			return
+		}
+		c.Violation("withdraw:malformed:"+vfc16Code(serr), fmt.Sprintf("sendWithdraw wrote %d octets that do not frame: %v", buf.Len(), serr), d)
 		return
 	}
-	if m.Type != vfBGPUpdate {
-		c.Violation("withdraw:wrong-type", fmt.Sprintf("sendWithdraw wrote a message of type %d", m.Type), d)
+	if len(msgs) == 0 {
+		c.Violation("withdraw:message-count", "sendWithdraw wrote nothing and reported success", d)
 		return
 	}
-	c.Count("decoded:withdraw")
-	u := m.Update
 	var got []string
-	for _, p := range u.Withdrawn {
-		got = append(got, p.String())
+	for _, raw := range msgs {
+		m, derr := vfBGPDecode(raw, false)
+		if derr != nil {
+			c.Violation("withdraw:malformed:"+vfc16Code(derr), fmt.Sprintf("sendWithdraw wrote a malformed message: %v", derr), d)
+			return
+		}
+		if m.Type != vfBGPUpdate {
+			c.Violation("withdraw:wrong-type", fmt.Sprintf("sendWithdraw wrote a message of type %d", m.Type), d)
+			return
+		}
+		c.Count("decoded:withdraw")
+		u := m.Update
+		for _, p := range u.Withdrawn {
+			got = append(got, p.String())
+		}
+		if len(u.Attrs) != 0 || len(u.NLRI) != 0 {
+			c.Violation("withdraw:carries-announcement", fmt.Sprintf("withdraw message carries %d attributes and %d NLRI entries", len(u.Attrs), len(u.NLRI)), d)
+		}
 	}
 	sort.Strings(got)
 	sort.Strings(want)
 	if strings.Join(got, " ") != strings.Join(want, " ") {
-		d["decoded"] = got
+		if len(got) <= 80 {
+			d["decoded"] = got
+		}
 		c.Violation("withdraw:prefix-mismatch", fmt.Sprintf("withdraw of %d prefixes decodes to %d prefixes that differ", len(want), len(got)), d)
-	}
-	if len(u.Attrs) != 0 || len(u.NLRI) != 0 {
-		c.Violation("withdraw:carries-announcement", fmt.Sprintf("withdraw message carries %d attributes and %d NLRI entries", len(u.Attrs), len(u.NLRI)), d)
 	}
 	c.Nontrivial(fmt.Sprintf("wdr|n=%d|ip16=%v", len(pfx), ip16))
 }
@@ -1025,6 +1056,15 @@ func TestVerif_C16(t *testing.T) {
 			}
 			for l := 0; l <= 32; l++ {
 				vfc16CheckWithdraw(c, []vfBGPPrefix{{Len: l, Addr: vfc16Addr(r, l%12)}}, false)
+			}
+			// the speaker puts every prefix that one change removes into a single UPDATE: sizes around the
+			// 4096-octet message limit (814 x /32 = 4093 octets, 815 x /32 = 4098) and beyond the 16-bit length
+			for _, n := range []int{200, 814, 815, 816, 1200, 4000, 13200} {
+				var ps []vfBGPPrefix
+				for i := 0; i < n; i++ {
+					ps = append(ps, vfBGPPrefix{Len: 32, Addr: [4]byte{10, byte(i >> 16), byte(i >> 8), byte(i)}})
+				}
+				vfc16CheckWithdraw(c, ps, false)
 			}
 		case 4: // directed well-formed OPENs, starting with the minimal 29-octet one
 			extras := [][]vfBGPCap{
